@@ -58,7 +58,7 @@ type Entry struct {
 }
 
 type Script struct {
-	Kind string // ok | transport | status
+	Kind string // ok | transport | status | trunc
 	At   int
 }
 
@@ -162,6 +162,19 @@ func (t *Target) handle(w http.ResponseWriter, r *http.Request) {
 		c, _, err := hj.Hijack()
 		if err == nil {
 			c.Write([]byte("HTTP/1.1 200 OK\r\n"))
+			c.Close()
+		}
+		return
+	}
+	if hit && sc.Kind == "trunc" {
+		// status line and headers are fine, the body ends before its Content-Length
+		hj, ok := w.(http.Hijacker)
+		if !ok {
+			panic("no hijacker")
+		}
+		c, _, err := hj.Hijack()
+		if err == nil {
+			fmt.Fprintf(c, "HTTP/1.1 200 OK\r\nContent-Type: application/json\r\nX-Tok: h%d\r\nContent-Length: 100\r\n\r\n{\"tok\":", k)
 			c.Close()
 		}
 		return
